@@ -263,6 +263,10 @@ func (f *FSM) MustCopyWithState(state State) *FSM {
 				exists = true
 			}
 		}
+		// a finished or cancelled round rests in a final state: it must stay restorable
+		if f.IsFinState(state) {
+			exists = true
+		}
 		if !exists {
 			panic(fmt.Sprintf("cannot set state, not exists  \"%s\" for \"%s\"", state, f.name))
 		}
@@ -457,6 +461,14 @@ func (f *FSM) StatesList() (states []State) {
 		}
 	}
 
+	return
+}
+
+// FinStatesList returns the final states of the machine (states that are never a source here)
+func (f *FSM) FinStatesList() (states []State) {
+	for state := range f.finStates {
+		states = append(states, state)
+	}
 	return
 }
 
